@@ -59,12 +59,21 @@ func (p *Parser) Parse(input string) (*ParserResult, error) {
 		return result, result.Error
 	}
 
+	return p.ParseContent(inputResult.Content)
+}
+
+// ParseContent parses SQL text that has already been read (a file's content, or
+// text piped through stdin). Unlike Parse it never interprets the text as a file
+// path and does not require it to start with a known SQL keyword.
+func (p *Parser) ParseContent(content []byte) (*ParserResult, error) {
+	result := &ParserResult{}
+
 	// Use pooled tokenizer
 	tkz := tokenizer.GetTokenizer()
 	defer tokenizer.PutTokenizer(tkz)
 
 	// Tokenize
-	tokens, err := tkz.Tokenize(inputResult.Content)
+	tokens, err := tkz.Tokenize(content)
 	if err != nil {
 		result.Error = fmt.Errorf("tokenization failed: %w", err)
 		return result, result.Error
